@@ -1,8 +1,9 @@
 import MdIt.Core
+import MdIt.Verbatim
 import MdIt.Generated.Tables
 /-!
 # MdIt.Inline — the inline tokenizer engine (`parser_inline.py`, `rules_inline/state_inline.py`) and the
-rules `text`, `newline`, `escape` (`rules_inline/*.py`), `fragments_join`
+rules `text`, `newline`, `escape`, `backticks` (`rules_inline/*.py`), `fragments_join`
 
 The engine is generic in the rule chain: a rule is a function `IState → Bool → Except PyErr (Bool × IState)`
 (`silent` flag, match result, new state).  Python's unbounded `while` is well-founded recursion on
@@ -20,6 +21,8 @@ structure IState where
   pendingLevel : Int
   tokens : List Tok
   delims : Nat                 -- number of emphasis-like delimiters recorded so far (0 ⇒ ruler2 has nothing to do)
+  backticks : List (Nat × Nat) := []     -- `state.backticks`: run length ↦ last position seen (a dict: the first entry for a key counts)
+  backticksScanned : Bool := false       -- `state.backticksScanned`
 deriving Repr
 
 def IState.init (src : List Char) : IState :=
@@ -102,6 +105,66 @@ def ruleEscape : IRule := fun s silent =>
         let s1 := if silent then s else
           s.push "text_special" "" 0 (if Gen.escaped.contains ch1.toNat then String.singleton ch1 else orig) orig "escape"
         .ok (true, { s1 with pos := pos + 1 })
+
+/-! ### `backticks` -/
+
+/-- `dict.get(k, 0)` -/
+def btGet (d : List (Nat × Nat)) (k : Nat) : Nat :=
+  match d.find? (·.1 == k) with
+  | some p => p.2
+  | none => 0
+
+/-- `d[k] = v` -/
+def btSet (d : List (Nat × Nat)) (k v : Nat) : List (Nat × Nat) := (k, v) :: d.filter (·.1 != k)
+
+/-- `while pos < maximum and src[pos] == "`": pos += 1` -/
+def btRun (src : List Char) (max : Nat) : Nat → Nat → Nat
+  | 0, pos => pos
+  | fuel + 1, pos => if pos < max then (match src[pos]? with
+      | some c => if c == '`' then btRun src max fuel (pos + 1) else pos
+      | none => pos) else pos
+
+/-- `src.index("`", from)` — over the whole source, not only up to `posMax` -/
+def btFind (src : List Char) (from_ : Nat) : Option Nat :=
+  match (src.drop from_).findIdx? (· == '`') with
+  | some j => some (from_ + j)
+  | none => none
+
+/-- the `while True` search for a closing run of the opener's length: the closer found (`matchStart`, `matchEnd`) and the
+    cache as the loop leaves it (it is written in silent mode too) -/
+def btScan (src : List Char) (max openerLength : Nat) : Nat → Nat → List (Nat × Nat) → Option (Nat × Nat) × List (Nat × Nat)
+  | 0, _, bt => (none, bt)
+  | fuel + 1, matchEnd, bt =>
+    match btFind src matchEnd with
+    | none => (none, bt)
+    | some matchStart =>
+      let matchEnd' := btRun src max (max - matchStart) (matchStart + 1)
+      let closerLength := matchEnd' - matchStart
+      if closerLength == openerLength then (some (matchStart, matchEnd'), bt)
+      else btScan src max openerLength fuel matchEnd' (btSet bt closerLength matchStart)
+
+/-- `rules_inline/backticks.py` -/
+def ruleBackticks : IRule := fun s silent =>
+  match s.src[s.pos]? with
+  | none => .error .indexError
+  | some c =>
+    if c != '`' then .ok (false, s) else
+    let start := s.pos
+    let pos := btRun s.src s.posMax (s.posMax - start) (start + 1)
+    let openerLength := pos - start
+    let marker := (s.src.take pos).drop start
+    if s.backticksScanned && decide (btGet s.backticks openerLength ≤ start) then
+      .ok (true, { s with pending := if silent then s.pending else s.pending ++ marker, pos := s.pos + openerLength })
+    else
+      match btScan s.src s.posMax openerLength (s.src.length - pos + 1) pos s.backticks with
+      | (some (matchStart, matchEnd), bt) =>
+        let s0 := { s with backticks := bt }
+        let s1 := if silent then s0 else
+          s0.push "code_inline" "code" 0 (String.ofList (codeSpanContent ((s.src.take matchStart).drop pos))) (String.ofList marker) ""
+        .ok (true, { s1 with pos := matchEnd })
+      | (none, bt) =>
+        .ok (true, { s with backticks := bt, backticksScanned := true,
+                            pending := if silent then s.pending else s.pending ++ marker, pos := s.pos + openerLength })
 
 /-- run the chain at the current position until a rule matches -/
 def runChain : List IRule → IState → Except PyErr (Bool × IState)
